@@ -92,7 +92,8 @@ def transforms(case, rng):
         nums_out = [l for e in case["outs"] for l, _ in leaves(expand(e)) if isinstance(l, Num) and l.size != 1]
         per_in_unique = all(len(x) == len(set(x)) for x in [[l.name for l, _ in leaves(expand(e)) if isinstance(l, Ax)] for e in case["ins"]])
         nums_in_cat = any(isinstance(p, Num) for e in list(case["ins"]) + list(case["outs"]) for it in R._walk(e) if isinstance(it, Cat) for p in it.parts)
-        if names_out <= set(names_in) and not nums_out and per_in_unique and not nums_in_cat:
+        anon_ell = any(isinstance(x, Ell) and x.anon for e in list(case["ins"]) + list(case["outs"]) for x in R._walk(e))
+        if names_out <= set(names_in) and not nums_out and per_in_unique and not nums_in_cat and not anon_ell:
             kw_all = R.all_sizes_kwargs(case, list(case["ins"]) + list(case["outs"]))
             inv = family.show_op(case["outs"], case["ins"])
             out.append(("inverse", [("id", case["desc"], base_args, kw_of(case), None), ("id", inv, "PREV", kw_all, None)], [("__input__", "", base_args, {}, None)], None, []))
@@ -152,6 +153,8 @@ def vacuity(case):
         sh = shape(expand(case["ins"][i]))
         if tuple(sh[p] for p in perm) != tuple(sh) or perm == list(range(len(perm))):
             continue
+        if not any(p != k and sh[k] > 1 for k, p in enumerate(perm)):
+            continue
         ins_b = list(case["ins"])
         ins_b[i] = new_e
         arrs = harness.build_inputs(case)
@@ -209,8 +212,10 @@ def main():
     tw = None
     for c in all_cases:
         if c["family"] in ("id", "elementwise") and explicit_out(c):
-            tw = vacuity(c)
-            if tw is not None:
+            t = vacuity(c)
+            if t is not None:
+                tw = t
+            if t == "violation":
                 break
     if tw != "violation":
         rep.harness_error(f"vacuity twin (expression permuted, tensor not transposed) came back {tw!r}, expected a reproduced violation")
